@@ -5,11 +5,13 @@ set -u
 ID="$1"; shift
 DIR=/verif/seeded/$ID
 [ -f "$DIR/patch.diff" ] || { echo "no $DIR/patch.diff"; exit 2; }
-if [ -n "$(git -C /repo status --porcelain)" ]; then echo "/repo is not clean"; exit 2; fi
+# VERIF_REPO=<scratch worktree> evaluates there instead of /repo (e.g. while /repo is busy)
+REPO="${VERIF_REPO:-/repo}"
+if [ -n "$(git -C $REPO status --porcelain)" ]; then echo "$REPO is not clean"; exit 2; fi
 CHECKS="$@"
 if [ -z "$CHECKS" ]; then CHECKS=$(python3 -c "import json;print(json.load(open('$DIR/meta.json'))['property'])"); fi
-git -C /repo apply "$DIR/patch.diff" || { echo "patch does not apply"; exit 2; }
-trap 'git -C /repo checkout -- . ; git -C /repo clean -fdq' EXIT
+git -C $REPO apply "$DIR/patch.diff" || { echo "patch does not apply"; exit 2; }
+trap 'git -C $REPO checkout -- . ; git -C $REPO clean -fdq' EXIT
 for C in $CHECKS; do
   OUT=$(cd /verif && timeout 1500 ./run.sh $C quick 2>&1)
   RC=$?
